@@ -459,7 +459,20 @@ struct Worker {
     cur: Option<(u64, u64)>,
     last_begin: Option<u64>,
     last_activity: Instant,
+    /// CPU seconds the worker had consumed when its current silence reached a quarter of the stall limit
+    stall_mark: Option<f64>,
     alive: bool,
+}
+
+/// CPU seconds (user + system) consumed so far by a process; the stall watchdog measures progress in
+/// CPU time so that a loaded machine (workers starved of CPU) is never mistaken for a hang.
+fn proc_cpu_secs(pid: u32) -> Option<f64> {
+    let s = std::fs::read_to_string(format!("/proc/{pid}/stat")).ok()?;
+    let rest = s.get(s.rfind(')')? + 2..)?;
+    let f: Vec<&str> = rest.split_whitespace().collect();
+    let ut: f64 = f.get(11)?.parse().ok()?;
+    let st: f64 = f.get(12)?.parse().ok()?;
+    Some((ut + st) / 100.0)
 }
 
 fn spawn_worker(wid: usize, scenario: &str, property: &str, tier: Tier, seed: u64, tx: mpsc::Sender<Msg>, exe: Option<String>) -> Worker {
@@ -502,7 +515,7 @@ fn spawn_worker(wid: usize, scenario: &str, property: &str, tier: Tier, seed: u6
         }
         let _ = tx.send(Msg::Eof(wid));
     });
-    Worker { child, stdin, cur: None, last_begin: None, last_activity: Instant::now(), alive: true }
+    Worker { child, stdin, cur: None, last_begin: None, last_activity: Instant::now(), stall_mark: None, alive: true }
 }
 
 pub struct BatchCfg<'a> {
@@ -561,7 +574,40 @@ pub fn run_batch(cfg: &BatchCfg) -> BatchResult {
             active += 1;
         }
     }
+    let mut last_wd = Instant::now();
     while active > 0 {
+        if last_wd.elapsed() >= Duration::from_millis(500) {
+            last_wd = Instant::now();
+            // watchdog for CPU loops without I/O: a worker is killed when it has been silent for
+            // stall_secs of wall time AND has burnt at least half of that in CPU since the silence
+            // reached a quarter of the limit (so starvation on a loaded machine is not a hang);
+            // a worker that is silent without using CPU (blocked) is killed after 10 x stall_secs.
+            for w in workers.iter_mut() {
+                if w.cur.is_none() || !w.alive {
+                    continue;
+                }
+                let el = w.last_activity.elapsed().as_secs_f64();
+                let lim = cfg.stall_secs as f64;
+                if el < lim / 4.0 {
+                    w.stall_mark = None;
+                    continue;
+                }
+                let cpu = proc_cpu_secs(w.child.id());
+                if w.stall_mark.is_none() {
+                    w.stall_mark = cpu;
+                }
+                if el > lim {
+                    let burnt = match (cpu, w.stall_mark) {
+                        (Some(c), Some(m)) => c - m,
+                        _ => el, // no /proc: fall back to wall time
+                    };
+                    if burnt > lim / 2.0 || el > lim * 10.0 {
+                        let _ = w.child.kill();
+                        // Eof handler will record it as abort/SIGKILL
+                    }
+                }
+            }
+        }
         let stop = cfg.deadline.map(|d| Instant::now() >= d).unwrap_or(false) || res.found.len() >= 40;
         if stop && next < cfg.total {
             res.stopped_early = true;
@@ -647,13 +693,6 @@ pub fn run_batch(cfg: &BatchCfg) -> BatchResult {
                 }
             }
             Err(mpsc::RecvTimeoutError::Timeout) => {
-                // watchdog for CPU loops without I/O
-                for w in 0..workers.len() {
-                    if workers[w].cur.is_some() && workers[w].alive && workers[w].last_activity.elapsed().as_secs() > cfg.stall_secs {
-                        let _ = workers[w].child.kill();
-                        // Eof handler will record it as abort/killed
-                    }
-                }
             }
             Err(mpsc::RecvTimeoutError::Disconnected) => break,
         }
@@ -715,12 +754,26 @@ pub fn eval_subprocess_with(exe: Option<String>, scenario: &str, property: &str,
         let _ = stdout.read_to_string(&mut s);
         let _ = tx.send(s);
     });
-    let out = match rx.recv_timeout(Duration::from_secs(timeout_s)) {
-        Ok(s) => s,
-        Err(_) => {
-            let _ = child.kill();
-            let _ = child.wait();
-            return EvalOut { verdict: viol("abort/SIGKILL", "no result within the watchdog time (CPU loop?)"), digest: 0 };
+    // same rule as the batch watchdog: wall time over the limit AND at least half of it burnt in CPU
+    // (or 10 x the limit with no CPU use at all)
+    let t_start = Instant::now();
+    let pid = child.id();
+    let out = loop {
+        match rx.recv_timeout(Duration::from_millis(200)) {
+            Ok(s) => break s,
+            Err(mpsc::RecvTimeoutError::Disconnected) => break String::new(),
+            Err(mpsc::RecvTimeoutError::Timeout) => {
+                let el = t_start.elapsed().as_secs_f64();
+                let lim = timeout_s as f64;
+                if el > lim {
+                    let burnt = proc_cpu_secs(pid).unwrap_or(el);
+                    if burnt > lim / 2.0 || el > lim * 10.0 {
+                        let _ = child.kill();
+                        let _ = child.wait();
+                        return EvalOut { verdict: viol("abort/SIGKILL", "no result within the watchdog time (CPU loop?)"), digest: 0 };
+                    }
+                }
+            }
         }
     };
     let status = child.wait().ok();
